@@ -31,6 +31,7 @@ OUTSIDE = ["relocation types without an entry in ref/relocspec.py (listed in evi
            "non-zero addends for relocation types whose class ignores the addend (ppci's encoders never emit one)"]
 ASSUMPTIONS = ["relocation pre-state = base encoding emitted by the real instruction class (label operand -> zero field)",
                "alignment facts the ISA requires for S and P are assumed (ppci asserts them)",
+               "byte order of a relocated word = the ISA's (or1k, microblaze, m68k big-endian; mips: ppci's little-endian target)",
                "any exception counts as 'fails with an error'"]
 SHIMS_USED = ["isinstance", "int", "range", "bytes", "bytearray", "struct", "bool"]
 
